@@ -4,6 +4,7 @@ CONSTANTS
   Workers <- W2
   BadSig = {2}
   Undecodable = {}
+  OriFirst = TRUE
   ErrFirst = FALSE
-INVARIANTS ExecOrder FailedHasError SerialOutcome WaitGroupSane
+INVARIANTS ExecOrder FailedHasError SerialOutcome BytesReported WaitGroupSane
 PROPERTIES Termination ExecTerminates
